@@ -66,7 +66,8 @@ def typedAstKVs (s : Schema) (env : RequestEnv) : List (String × Expr) → Capa
   | (k, x) :: xs, caps => (k, typedAst s env x caps) :: typedAstKVs s env xs caps
 end
 
-/-- the core fragment, on untyped expressions (`InFrag` on the typed AST) -/
+-- the core fragment (`InFrag` on the typed AST) plus extension function calls, on untyped expressions
+mutual
 def FragE : Expr → Prop
   | .lit _ => True
   | .var _ => True
@@ -79,15 +80,21 @@ def FragE : Expr → Prop
   | .hasAttr e _ => FragE e
   | .like e _ => FragE e
   | .is e _ => FragE e
+  | .call _ args => FragEList args
   | _ => False
+def FragEList : List Expr → Prop
+  | [] => True
+  | x :: xs => FragE x ∧ FragEList xs
+end
 
 def RecFree : Option CedarType → Prop
   | some τ => τ.isRecord = false
   | none => True
 
-/-- the (syntactic) side condition of the proved fragment: `==` does not compare records, `contains` does not look for a
-record — stated on the type annotations of the typed AST.  (For every other binary operator the typechecker itself forces
-non-record operand types: `binary_inv`.) -/
+-- the (syntactic) side condition of the proved fragment: `==` does not compare records, `contains` does not look for a
+-- record — stated on the type annotations of the typed AST.  (For every other binary operator the typechecker itself forces
+-- non-record operand types: `binary_inv`.)
+mutual
 def NoRecOps : TExpr → Prop
   | .ite c t e => NoRecOps c ∧ NoRecOps t ∧ NoRecOps e
   | .and a b => NoRecOps a ∧ NoRecOps b
@@ -99,13 +106,19 @@ def NoRecOps : TExpr → Prop
   | .hasAttr e _ => NoRecOps e
   | .like e _ => NoRecOps e
   | .is e _ => NoRecOps e
+  | .call _ args => NoRecOpsList args
   | _ => True
+def NoRecOpsList : List TExpr → Prop
+  | [] => True
+  | x :: xs => NoRecOps x ∧ NoRecOpsList xs
+end
 
 def recFreeB : Option CedarType → Bool
   | some τ => !τ.isRecord
   | none => true
 
-/-- executable form of `NoRecOps` -/
+-- executable form of `NoRecOps`
+mutual
 def noRecOpsB : TExpr → Bool
   | .ite c t e => noRecOpsB c && noRecOpsB t && noRecOpsB e
   | .and a b => noRecOpsB a && noRecOpsB b
@@ -117,13 +130,19 @@ def noRecOpsB : TExpr → Bool
   | .hasAttr e _ => noRecOpsB e
   | .like e _ => noRecOpsB e
   | .is e _ => noRecOpsB e
+  | .call _ args => noRecOpsListB args
   | _ => true
+def noRecOpsListB : List TExpr → Bool
+  | [] => true
+  | x :: xs => noRecOpsB x && noRecOpsListB xs
+end
 
 theorem recFreeB_sound {o : Option CedarType} (h : recFreeB o = true) : RecFree o := by
   cases o with
   | none => trivial
   | some τ => simpa [recFreeB, RecFree] using h
 
+mutual
 theorem noRecOpsB_sound : ∀ (e : TExpr), noRecOpsB e = true → NoRecOps e
   | .ite c t e, h => by
     simp only [noRecOpsB, Bool.and_eq_true] at h
@@ -155,12 +174,19 @@ theorem noRecOpsB_sound : ∀ (e : TExpr), noRecOpsB e = true → NoRecOps e
   | .var _, _ => trivial
   | .slot _, _ => trivial
   | .unknown _, _ => trivial
-  | .call _ _, _ => trivial
+  | .call _ args, h => by simp only [noRecOpsB] at h; simp only [NoRecOps]; exact noRecOpsListB_sound args h
   | .set _, _ => trivial
   | .record _, _ => trivial
+theorem noRecOpsListB_sound : ∀ (es : List TExpr), noRecOpsListB es = true → NoRecOpsList es
+  | [], _ => trivial
+  | x :: xs, h => by
+    simp only [noRecOpsListB, Bool.and_eq_true] at h
+    exact ⟨noRecOpsB_sound x h.1, noRecOpsListB_sound xs h.2⟩
+end
 
 /-! ## inversion of the typing rules, as far as needed -/
 
+mutual
 theorem fragE_inFragment2 (env : RequestEnv) : ∀ (e : Expr), FragE e → InFragment2 env e = true
   | .lit _, _ => rfl
   | .var _, _ => rfl
@@ -202,9 +228,19 @@ theorem fragE_inFragment2 (env : RequestEnv) : ∀ (e : Expr), FragE e → InFra
     exact fragE_inFragment2 env a h
   | .slot _, h => by simp [FragE] at h
   | .unknown _ _, h => by simp [FragE] at h
-  | .call _ _, h => by simp [FragE] at h
+  | .call _ args, h => by
+    simp only [FragE] at h
+    simp only [InFragment2, InFragmentM]
+    exact fragEList_inFragment2 env args h
   | .set _, h => by simp [FragE] at h
   | .record _, h => by simp [FragE] at h
+theorem fragEList_inFragment2 (env : RequestEnv) : ∀ (es : List Expr), FragEList es → InFragment2List env es = true
+  | [], _ => rfl
+  | e :: es, h => by
+    simp only [FragEList] at h
+    simp only [InFragment2List, InFragmentMList, Bool.and_eq_true]
+    exact ⟨fragE_inFragment2 env e h.1, fragEList_inFragment2 env es h.2⟩
+end
 
 theorem isSubtype_rec_left {m : ValidationMode} {a : Attrs} {o : Bool} {t : CedarType}
     (h : isSubtype m (.record a o) t = true) : t.isRecord = true := by
@@ -313,7 +349,49 @@ theorem operand_inv {e : Expr} {caps : Capabilities} {τ : CedarType} {c' : Capa
     · simp [typeOf, hT, expectOneOf] at h
     · simp [typeOf, hT, expectOneOf] at h
 
+/-- the typing rule of extension function calls, inverted -/
+theorem call_inv {fn : String} {args : List Expr} {caps : Capabilities} {τ : CedarType} {c' : Capabilities}
+    (h : typeOf .strict s env (.call fn args) caps = .ok (τ, c')) :
+    ∃ sig τs, extSig fn = some sig ∧ typeOfList .strict s env args caps = .ok τs ∧ args.length = sig.args.length ∧
+      (τs.zip sig.args).all (fun p => isSubtype .permissive p.1 p.2) = true ∧ τ = sig.ret := by
+  simp only [typeOf] at h
+  cases hsig : extSig fn with
+  | none =>
+    rw [hsig] at h; simp only at h
+    split at h <;> cases h
+  | some sig =>
+    rw [hsig] at h; simp only at h
+    cases hL : typeOfList .strict s env args caps with
+    | error err => rw [hL] at h; cases h
+    | ok τs =>
+      rw [hL] at h; simp only at h
+      split at h
+      · cases h
+      · rename_i hnf
+        split at h
+        · rename_i hall
+          simp only [ok, Except.ok.injEq, Prod.mk.injEq] at h
+          simp only [Bool.or_eq_true, not_or, bne_iff_ne, ne_eq, Decidable.not_not] at hnf
+          exact ⟨sig, τs, rfl, rfl, hnf.1.1, hall, h.1.symm⟩
+        · cases h
+
 end inv
+
+/-- extension functions: flat result type (extension type, `Bool`, `Long`), non-record argument types, one or two arguments -/
+theorem extSig_facts {fn : String} {sig : ExtSig} (h : extSig fn = some sig) :
+    sig.ret.flat = true ∧ (∀ t, t ∈ sig.args → t.isRecord = false) ∧ (sig.args.length = 1 ∨ sig.args.length = 2) := by
+  unfold extSig at h
+  simp only at h
+  split at h <;> first | (cases h; exact ⟨rfl, by decide, by decide⟩) | cases h
+
+theorem inst_flat_scalar {v : Value} {τ : CedarType} (hi : InstanceOfType v τ) (hf : τ.flat = true) : Scalar v := by
+  cases hi <;> simp [CedarType.flat, Scalar] at hf ⊢
+
+theorem sub_nonrec1 {τ t : CedarType} (h : isSubtype .permissive τ t = true) (ht : t.isRecord = false) :
+    τ.isRecord = false := by
+  cases τ with
+  | record a o => have := isSubtype_rec_left h; rw [ht] at this; cases this
+  | _ => rfl
 
 /-! ## type soundness gives the semantic premises of `Sim` -/
 
@@ -498,9 +576,73 @@ theorem sim_typed : ∀ (e : Expr), FragE e → ∀ (caps : Capabilities) (τ : 
     obtain ⟨τe, ce, hte⟩ := operand_inv (.is e ty) (Or.inr (Or.inr (Or.inr (Or.inr ⟨ty, rfl⟩)))) h
     simp only [typedAst, NoRecOps] at hn ⊢
     exact .is ty (sim_typed e hf caps τe ce hte hc hn)
+  | .call fn [], _, caps, τ, c', h, _, _ => by
+    obtain ⟨sig, τs, hsig, _, hlen, _, _⟩ := call_inv h
+    obtain ⟨_, _, harity⟩ := extSig_facts hsig
+    simp only [List.length_nil] at hlen
+    omega
+  | .call fn (_ :: _ :: _ :: _), _, caps, τ, c', h, _, _ => by
+    obtain ⟨sig, τs, hsig, _, hlen, _, _⟩ := call_inv h
+    obtain ⟨_, _, harity⟩ := extSig_facts hsig
+    simp only [List.length_cons] at hlen
+    omega
+  | .call fn [a], hf, caps, τ, c', h, hc, hn => by
+    obtain ⟨sig, τs, hsig, hL, hlen, hall, hτ⟩ := call_inv h
+    obtain ⟨hflat, hargs, _⟩ := extSig_facts hsig
+    have snd := sound_of hWF henv hsem (.call fn [a]) hf caps τ c' h hc
+    have hscal : ∀ w, evaluate req es [] (.call fn [a]) = .ok w → Scalar w := by
+      intro w hw
+      rcases snd with ⟨err, he, _⟩ | ⟨v, hv, hi, _⟩
+      · have he' : evaluate req es [] (.call fn [a]) = .error err := he
+        rw [hw] at he'; cases he'
+      · have hv' : evaluate req es [] (.call fn [a]) = .ok v := hv
+        rw [hw] at hv'; cases hv'
+        subst hτ
+        exact inst_flat_scalar hi hflat
+    obtain ⟨τa, ca, τs', h1, _, rfl⟩ := typeOfList_cons hL
+    simp only [FragE, FragEList, and_true] at hf
+    simp only [typedAst, typedAstList, NoRecOps, NoRecOpsList, and_true] at hn ⊢
+    have hna : τa.isRecord = false := by
+      cases hsa : sig.args with
+      | nil => rw [hsa] at hlen; simp at hlen
+      | cons t ts =>
+        rw [hsa] at hall
+        simp only [List.zip_cons_cons, List.all_cons, Bool.and_eq_true] at hall
+        exact sub_nonrec1 hall.1 (hargs t (by simp [hsa]))
+    exact .call1 fn (sim_typed a hf caps τa ca h1 hc hn)
+      (nonrec_of_sound (sound_of hWF henv hsem a hf caps τa ca h1 hc) hna) hscal
+  | .call fn [a, b], hf, caps, τ, c', h, hc, hn => by
+    obtain ⟨sig, τs, hsig, hL, hlen, hall, hτ⟩ := call_inv h
+    obtain ⟨hflat, hargs, _⟩ := extSig_facts hsig
+    have snd := sound_of hWF henv hsem (.call fn [a, b]) hf caps τ c' h hc
+    have hscal : ∀ w, evaluate req es [] (.call fn [a, b]) = .ok w → Scalar w := by
+      intro w hw
+      rcases snd with ⟨err, he, _⟩ | ⟨v, hv, hi, _⟩
+      · have he' : evaluate req es [] (.call fn [a, b]) = .error err := he
+        rw [hw] at he'; cases he'
+      · have hv' : evaluate req es [] (.call fn [a, b]) = .ok v := hv
+        rw [hw] at hv'; cases hv'
+        subst hτ
+        exact inst_flat_scalar hi hflat
+    obtain ⟨τa, ca, τs', h1, hL', rfl⟩ := typeOfList_cons hL
+    obtain ⟨τb, cb, τs'', h2, _, rfl⟩ := typeOfList_cons hL'
+    simp only [FragE, FragEList, and_true] at hf
+    simp only [typedAst, typedAstList, NoRecOps, NoRecOpsList, and_true] at hn ⊢
+    have hnab : τa.isRecord = false ∧ τb.isRecord = false := by
+      cases hsa : sig.args with
+      | nil => rw [hsa] at hlen; simp at hlen
+      | cons t ts =>
+        cases ts with
+        | nil => rw [hsa] at hlen; simp at hlen
+        | cons t2 ts2 =>
+          rw [hsa] at hall
+          simp only [List.zip_cons_cons, List.all_cons, Bool.and_eq_true] at hall
+          exact ⟨sub_nonrec1 hall.1 (hargs t (by simp [hsa])), sub_nonrec1 hall.2.1 (hargs t2 (by simp [hsa]))⟩
+    exact .call2 fn (sim_typed a hf.1 caps τa ca h1 hc hn.1) (sim_typed b hf.2 caps τb cb h2 hc hn.2)
+      (nonrec_of_sound (sound_of hWF henv hsem a hf.1 caps τa ca h1 hc) hnab.1)
+      (nonrec_of_sound (sound_of hWF henv hsem b hf.2 caps τb cb h2 hc) hnab.2) hscal
   | .slot _, hf, _, _, _, _, _, _ => by simp [FragE] at hf
   | .unknown _ _, hf, _, _, _, _, _, _ => by simp [FragE] at hf
-  | .call _ _, hf, _, _, _, _, _, _ => by simp [FragE] at hf
   | .set _, hf, _, _, _, _, _, _ => by simp [FragE] at hf
   | .record _, hf, _, _, _, _, _, _ => by simp [FragE] at hf
 
@@ -561,7 +703,9 @@ theorem optUK_tyOf (e : Expr) (hf : FragE e) (caps : Capabilities) : optUK (tyOf
     simp only [optUK]
     exact typeUK_of_cn τ (typeOf_cn hWF henv e (fragE_inFragment2 env e hf) caps τ c hT)
 
-/-- the typed AST's annotations are record types with unique attribute names -/
+-- the typed AST's annotations are record types with unique attribute names
+set_option linter.unusedSectionVars false in
+mutual
 theorem typesUK_typed : ∀ (e : Expr), FragE e → ∀ (caps : Capabilities), TypesUK (typedAst s env e caps)
   | .lit p, _, _ => by simp [typedAst, TypesUK]
   | .var x, _, _ => by simp [typedAst, TypesUK]
@@ -616,11 +760,21 @@ theorem typesUK_typed : ∀ (e : Expr), FragE e → ∀ (caps : Capabilities), T
     simp only [FragE] at hf
     simp only [typedAst, TypesUK]
     exact typesUK_typed e hf caps
+  | .call _ args, hf, caps => by
+    simp only [FragE] at hf
+    simp only [typedAst, TypesUK]
+    exact typesUKList_typed args hf caps
   | .slot _, hf, _ => by simp [FragE] at hf
   | .unknown _ _, hf, _ => by simp [FragE] at hf
-  | .call _ _, hf, _ => by simp [FragE] at hf
   | .set _, hf, _ => by simp [FragE] at hf
   | .record _, hf, _ => by simp [FragE] at hf
+theorem typesUKList_typed : ∀ (es : List Expr), FragEList es → ∀ (caps : Capabilities), TypesUKList (typedAstList s env es caps)
+  | [], _, _ => by simp [typedAstList, TypesUKList]
+  | e :: es, hf, caps => by
+    simp only [FragEList] at hf
+    simp only [typedAstList, TypesUKList]
+    exact ⟨typesUK_typed e hf.1 caps, typesUKList_typed es hf.2 caps⟩
+end
 
 end uk
 
